@@ -43,7 +43,9 @@ var c17Effect = map[int]gtfs.AlertEffect{
 
 // Station and elevator ids share a tight alphabet on purpose: many (output id, stop id) pairs then
 // concatenate to the same text although they are different pairs (e.g. elevator 7 at 2R5N vs elevator 72 at R5N).
-var c17Stations = []string{"A27", "A28", "A2N", "L03", "E01", "R1S", "127", "a27", "ABS", "2R5", "R5N", "12R", "2RN", "NNN", "1NN", "N12", "22N"}
+var c17Stations = []string{"A27", "A28", "A2N", "L03", "E01", "R1S", "127", "a27", "ABS", "2R5", "R5N", "12R", "2RN", "NNN", "1NN", "N12", "22N",
+	// station ids that contain the marker text of the id format itself
+	"EL1", "AEL", "1EL"}
 var c17Elevators = []string{"123", "1", "X9", "12 B", "", "700", "123", "7", "72", "12", "2", "N", "1N", "2R", "71"}
 
 type c17Alert struct {
